@@ -1698,6 +1698,27 @@ func (s *shutRun) judgeCause(k int, v *shutView, ccs []shutCC, tc *TapConn) {
 			s.report("(3) connection reports a closed transport although its transport was not being closed", "side %d at %v; transport closed: %v %v", k, time.Duration(D), s.trClosed[k], s.trCloseNS[k])
 		}
 	case "vn":
+		// A long-header packet whose version field was corrupted to zero on the way IS a Version Negotiation packet for the
+		// receiver (they are not authenticated): if such a datagram was delivered to this side, the error is the network's.
+		forged := false
+		for _, rec := range s.w.Log[1-k] {
+			if !rec.Damaged || len(rec.Delivered) == 0 || rec.Delivered[0] > D {
+				continue
+			}
+			for _, f := range rec.Faults {
+				if f.Kind == "corrupt" {
+					for _, p := range rec.Pkts {
+						if p.Type != Tap1RTT && int(f.A) >= p.Off+1 && int(f.A) <= p.Off+4 {
+							forged = true
+						}
+					}
+				}
+			}
+		}
+		if forged {
+			s.res.Probe("version-field-corrupted-into-a-version-negotiation-packet")
+			break
+		}
 		s.report("(3) version negotiation error between compatible endpoints", "side %d: %v", k, v.cause)
 	case "dial-cancelled", "dial-horizon":
 	default:
@@ -2075,7 +2096,8 @@ func (s *shutRun) judgeExact(v [2]*shutView) {
 			want(1, "tr-closed")
 			poked := false
 			for _, rec := range s.w.Log[0] {
-				poked = poked || (rec.SentNS > s.trCloseNS[1][1] && rec.Size > 43 && len(rec.Delivered) > 0)
+				// (only a short-header packet is answered with a stateless reset; late Handshake ACKs are long-header packets)
+				poked = poked || (rec.SentNS > s.trCloseNS[1][1] && rec.Size > 43 && len(rec.Delivered) > 0 && len(rec.Pkts) > 0 && rec.Pkts[0].Type == Tap1RTT)
 			}
 			if poked {
 				want(0, "reset")
